@@ -108,13 +108,15 @@ func execC16(b []byte) vx.Verdict {
 	var notes []c16Note
 	socks := make([]netceptor.PacketConner, s.Socks)
 	svcOf := make([]string, s.Socks)
+	// service names are exact: the first three differ in letter case only
+	sockNames := []string{"snd", "Snd", "SND", "snd3", "snd4", "snd5"}
 	for i := range socks {
-		pc, err := sender.ListenPacket(fmt.Sprintf("snd%d", i))
+		pc, err := sender.ListenPacket(sockNames[i%len(sockNames)])
 		if err != nil {
 			return vx.Inconclusive("listen: %v", err)
 		}
 		socks[i] = pc
-		svcOf[i] = fmt.Sprintf("snd%d", i)
+		svcOf[i] = sockNames[i%len(sockNames)]
 		done := make(chan struct{})
 		defer close(done)
 		ch := pc.SubscribeUnreachable(done)
